@@ -805,6 +805,21 @@ func (e *Env) applyDelete(op Op) {
 	if e.own("version") && err == nil && op.Variant == 0 && len(del) > 0 {
 		e.checkRewriteVersion(segsBefore, del)
 	}
+	if e.own("version") && len(del) > 0 {
+		// a new, empty head that the delete had to create is a new segment: NewSegmentsVersion, whatever it replaces
+		was := map[string]bool{}
+		for _, sg := range segsBefore {
+			was[sg.Name+".log"] = true
+		}
+		if segsAfter, rerr := ReadSegs(e.Dir); rerr == nil {
+			for _, sg := range segsAfter {
+				if !was[sg.Name+".log"] && len(sg.Recs) == 0 {
+					e.checkFileVersion("version", sg.Name+".log", e.Opts.V1, "empty head segment created by a delete of the newest messages")
+					e.St.Inc("empty_heads_created_by_delete_checked_for_version")
+				}
+			}
+		}
+	}
 	_ = pre
 }
 
